@@ -489,6 +489,65 @@ def routes_monitor_parsed(case, p):
 
 
 # ----------------------------------------------------------------------------
+# (iv) the pool route for every kind of UV_THREADPOOL_SIZE value
+# ----------------------------------------------------------------------------
+POOL_VALUES = [None, "0", "", "00", "+0", "zero", "-1", "1", "2", "4", "1024", "1025", "99999999999"]
+POOL_OPS = ["stat", "read", "write", "scandir"]
+
+
+def pool_token(v):
+    return "unset" if v is None else "x" + v.encode("latin-1").hex()
+
+
+def pool_value_of(tok):
+    return None if tok == "unset" else bytes.fromhex(tok[1:]).decode("latin-1")
+
+
+def pool_cases(rng, n):
+    out = ["%s %s" % (pool_token(v), op) for v in POOL_VALUES for op in POOL_OPS]
+    alphabet = "0123456789" * 3 + "+- \t" + "ax."
+    for _ in range(n):
+        r = rng.random()
+        if r < 0.3:
+            v = str(rng.choice([0, 1, 3, 5, 8, 64, 1023, 1024, 1025, 2**31 - 1, 2**31, 2**32 - 1, 2**32, 2**32 + 3,
+                                2**63 - 1, 2**63, 2**64, 2**64 + 2, 10**30]))
+            v = rng.choice(["", "", "-", "+", " ", "0"]) + v
+        else:
+            v = "".join(rng.choice(alphabet) for _ in range(rng.randint(0, 6)))
+        out.append("%s %s" % (pool_token(v), rng.choice(POOL_OPS)))
+    return out
+
+
+POOL_RE = re.compile(r"^n=(-?\d+|\?)\s+S\{(.*?)\} P\{(.*?)\}\s*$")
+
+
+def pool_monitor(case, line):
+    tok, op = case.split()
+    shown = "unset" if tok == "unset" else "\"%s\"" % pool_value_of(tok)
+    if line.startswith("crash"):
+        return "uv_fs_%s crashed the process with UV_THREADPOOL_SIZE=%s (%s)" % (op, shown, line[:60])
+    m = POOL_RE.match(line.strip())
+    if not m:
+        return "unparsable harness line: %s" % line[:120]
+    n, S, P = m.group(1), m.group(2), m.group(3)
+    if P.startswith("hang"):
+        return "asynchronous request never completed with UV_THREADPOOL_SIZE=%s (uv_fs_%s; %s worker threads started)" % (shown, op, n)
+    cb = re.search(r" cb=(\d+)$", P)
+    if not cb or cb.group(1) != "1":
+        return "uv_fs_%s with UV_THREADPOOL_SIZE=%s: callback ran %s times" % (op, shown, cb.group(1) if cb else "?")
+    if P[:cb.start()] != S:
+        return "uv_fs_%s with UV_THREADPOOL_SIZE=%s: pool route gives {%s}, sync gives {%s}" % (op, shown, P[:cb.start()], S)
+    if not (1 <= int(n) <= 1024):
+        return "%s worker threads with UV_THREADPOOL_SIZE=%s" % (n, shown)
+    return None
+
+
+def pool_projection(line):
+    m = POOL_RE.match(line.strip())
+    return "n=%s" % m.group(1) if m else line[:80]
+
+
+# ----------------------------------------------------------------------------
 def run_robust(cmd, cases, shards=8, env=None, keep=lambda l: True):
     """run_lines; when a process died (fewer lines than cases) every case is run in a
     process of its own so that the crashing inputs are known: their line is 'crash <rc>'."""
@@ -532,6 +591,7 @@ def main():
         hbufs = vf.cc_harness(chk.scratch, "c11_bufs", ["c11_bufs.c"], lib=lib, wraps=WRAPS_BUFS,
                               extra=["-rdynamic"])
         hroutes = vf.cc_harness(chk.scratch, "c11_routes", ["c11_routes.c"], lib=lib, wraps=["syscall"])
+        hpool = vf.cc_harness(chk.scratch, "c11_pool", ["c11_pool.c"], lib=lib)
         liba = vf.build_libuv(chk.scratch, "asan")
         hroutes_a = vf.cc_harness(chk.scratch, "c11_routes_asan", ["c11_routes.c"], lib=liba,
                                   flavour="asan", wraps=["syscall"])
@@ -639,6 +699,29 @@ def main():
                               {"kind": "sanitizer", "log": (erra or "")[-3000:], "cases": sl[:5]}, found_input=True)
             chk.cov["sanitizer_sequences"] = len(sl)
 
+    # ---- (iv) pool sizes ----
+    pcs = read_corpus("pool.txt") + pool_cases(chk.rng, 300 if thorough else 40)
+    if replay_case:
+        pcs = [replay_case[1]] if replay_case[0].startswith("pool") and replay_case[1] else []
+    if pcs:
+        pdir = os.path.join(chk.scratch.dir, "pool")
+        os.makedirs(pdir, exist_ok=True)
+        env = dict(os.environ)
+        env.pop("UV_THREADPOOL_SIZE", None)
+        po, _, perr = run_robust([hpool, pdir], pcs, shards=8, env=env)
+        if len(po) != len(pcs):
+            chk.violation("c11_pool produced %d lines for %d cases: %s" % (len(po), len(pcs), perr[-300:]),
+                          {"kind": "harness"}, found_input=False)
+        else:
+            full_pool = dict(zip(pcs, po))
+            pm, _, _ = vf.run_lines([model, "pool"], pcs, shards=2)
+            vf.diff_cases(chk, "pool: threadpool.c init_threads (workers started) = Model/Fs.v pool_size", pcs,
+                          [pool_projection(l) for l in po], pm,
+                          lambda c, a: pool_monitor(c, full_pool.get(c, a)))
+            chk.cov["pool_size_cases"] = len(pcs)
+            chk.cov["pool_size_values"] = sorted(set(repr(pool_value_of(c.split()[0])) for c in pcs))[:60]
+            chk.sample({"pool_case": pcs[6], "impl": po[6][:200]})
+
     chk.finish(
         level="proof",
         rule="buffers: random buffer lists of 1..1100 entries (zero lengths, runs of empty buffers, lists above IOV_MAX), "
@@ -647,6 +730,9 @@ def main():
              "routes: random operation sequences over a fixed tree (existing/missing/wrong-type/existing-target paths, "
              "descriptor slots), four routes on fresh trees; model compared on route taken, SQE fields and live uv__malloc "
              "blocks at four points; monitor compares results, outputs, callback counts, trees against the POSIX mirror. "
+             "pool: one child process per (UV_THREADPOOL_SIZE value, operation): unset, \"0\", \"\", \"00\", \"+0\", text, "
+             "negative, 1, 2, 4, 1024, 1025, beyond int/long and random strings; watchdog 4 s; worker threads counted in "
+             "/proc/self/task and compared with pool_size; pool result compared with the sync result. "
              "A case is non-trivial when its (case, implementation line) pair is distinct.",
         trusted=["Coq 8.16.1 kernel (coqc)", "ExtrOcamlBasic extraction + OCaml 4.13.1 + ocaml/zutil.ml, ocaml/drv_c11.ml",
                  "harness/c11_bufs.c, harness/c11_routes.c (wrappers, POSIX mirror, tree digest), checks/c11.py (generators, monitors)",
